@@ -422,6 +422,28 @@ func runPartialJoinScenarios(rng *rand.Rand, n int, st *c06Stats, fail func(prop
 			fail("C03", "values-complete", "C03:incomplete", fmt.Sprintf("fresh replica: %d entries, %d values, the closure of the head has %d", len(fents), got, cut+1), info2)
 			fail("C01", "converges", "C01:diverged", fmt.Sprintf("a fresh replica that merged a log opened at entry %d of a chain exposes %d values (holds %d entries) instead of %d", cut, got, len(fents), cut+1), info2)
 		}
+		// C05: a log opened at an earlier head holds more than the closure of its heads; an unbounded merge
+		// with any peer keeps every entry it holds
+		if older3, err := ipfslog.NewLog(w.api, w.idents["C"], &ipfslog.LogOptions{ID: "L", Entries: writer.GetEntries(), Heads: []iface.IPFSLogEntry{chain[cut]}}); err == nil {
+			info4 := map[string]interface{}{"scenario": "a log opened at an earlier head merges a one-entry peer", "writer_entries": k, "head_index": cut, "seed_iteration": it}
+			peer, _ := ipfslog.NewLog(w.api, w.idents["D"], &ipfslog.LogOptions{ID: "L"})
+			if _, err := peer.Append(ctx, []byte("peer"), nil); err == nil {
+				held := append([]string{}, older3.GetEntries().Keys()...)
+				lenBefore := older3.Len()
+				if _, err := older3.Join(peer, -1); err == nil {
+					after := older3.GetEntries()
+					for _, hk := range held {
+						if _, ok := after.Get(hk); !ok {
+							fail("C05", "entries-never-vanish", "C05:entry-vanished", "entry "+hk+" vanished from a log opened at an earlier head when it merged a peer (unbounded)", info4)
+							break
+						}
+					}
+					if older3.Len() < lenBefore {
+						fail("C05", "len-monotone", "C05:len-decreased", fmt.Sprintf("Len() went from %d to %d in an unbounded merge", lenBefore, older3.Len()), info4)
+					}
+				}
+			}
+		}
 		// an append on a log opened at an earlier head: predecessors = its heads; skip references from its
 		// own past and never one of the predecessors
 		if older2, err := ipfslog.NewLog(w.api, w.idents["C"], &ipfslog.LogOptions{ID: "L", Entries: writer.GetEntries(), Heads: []iface.IPFSLogEntry{chain[cut]}}); err == nil {
